@@ -24,6 +24,20 @@ Proof.
 Qed.
 Print Assumptions C04_parser_reports_denotation.
 
+(* the same with a FORCED language (wbxml_parser_set_language, wbxml2xml -l, what wbxml_tree_from_wbxml passes on):
+   FULL.  The public identifier is read and not consulted; the language is the table's first entry with the
+   forced id (Spec.denote_with tbl (Some L)). *)
+Theorem C04_parser_reports_denotation_forced : forall (tbl : list lang) (L : lang) (d : wdoc) (evs : list event),
+  l_id L <> 0 -> find (fun x => l_id x =? l_id L) tbl = Some L ->
+  denote_with tbl (Some L) d = Some evs ->
+  parse_with tbl (l_id L) 0 (S (length (serialize d))) (serialize d) = POk evs.
+Proof.
+  intros tbl L d evs Hid Hfind H.
+  apply (parse_denote_with tbl (fun l _ _ => typed_wv_agree_proved) typed_datetime_agree_proved (l_id L) (Some L) d evs); [|exact H].
+  split; [reflexivity|]. split; [exact Hid|exact Hfind].
+Qed.
+Print Assumptions C04_parser_reports_denotation_forced.
+
 Theorem C04_wf_documents_parse : forall tbl d, wf tbl d ->
   exists evs, denote tbl d = Some evs /\ parse tbl (S (length (serialize d))) (serialize d) = POk evs.
 Proof.
@@ -111,6 +125,105 @@ Example C04_ex_wf : denote main_table ex_doc =
 Proof. vm_compute. reflexivity. Qed.
 Example C04_ex_parse : parse main_table 17 (serialize ex_doc) = match denote main_table ex_doc with Some e => POk e | None => PFuel end.
 Proof. vm_compute. reflexivity. Qed.
+(* non-vacuity per language family (props/C04/NOTES.md, "What wf demands"): one well-formed document each, with the
+   constructs that only that family has; every one is parsed to its denotation by the model (C04_ex_families_parse). *)
+(* SI: attribute start token with a value prefix, attribute value token, %Datetime attribute as opaque BCD *)
+Definition ex_si : wdoc := mk_wdoc 3 (PubNum 5) (Some 106) [] []
+  (WItemElt None (WTagTok 5) [] true
+     [WItemElt None (WTagTok 6) [mk_wattr (AStartTok None 12) [WValStr (WStrI [97]); WValTok None 133];
+                                 mk_wattr (AStartTok None 10) [WValStr (WOpaque [25; 153; 6; 37])]] true [WItemStr (WStrI [120])]]) [].
+Example C04_ex_si : serialize ex_si = [3; 5; 106; 0; 69; 198; 12; 3; 97; 0; 133; 10; 195; 4; 25; 153; 6; 37; 1; 3; 120; 0; 1; 1]
+  /\ denote main_table ex_si =
+  Some [EvStartDoc 106 1301; EvStartElt (TagTok 0 5 (B "si"%string)) [];
+        EvStartElt (TagTok 0 6 (B "indication"%string))
+          [(AttrTok 0 12 (B "href"%string), B "http://a.com/"%string); (AttrTok 0 10 (B "created"%string), B "1999-06-25T00:00:00Z"%string)];
+        EvChars [120]; EvEndElt (TagTok 0 6 (B "indication"%string)); EvEndElt (TagTok 0 5 (B "si"%string)); EvEndDoc].
+Proof. vm_compute. split; reflexivity. Qed.
+
+(* EMN: an element without content, timestamp attribute with all six octets *)
+Definition ex_emn : wdoc := mk_wdoc 3 (PubNum 13) (Some 106) [] []
+  (WItemElt None (WTagTok 5) [mk_wattr (AStartTok None 7) [WValStr (WStrI [97])];
+                              mk_wattr (AStartTok None 5) [WValStr (WOpaque [32; 1; 18; 49; 9; 5])]] false []) [].
+Example C04_ex_emn : denote main_table ex_emn =
+  Some [EvStartDoc 106 1701;
+        EvStartElt (TagTok 0 5 (B "emn"%string))
+          [(AttrTok 0 7 (B "mailbox"%string), B "mailat:a"%string); (AttrTok 0 5 (B "timestamp"%string), B "2001-12-31T09:05:00Z"%string)];
+        EvEndElt (TagTok 0 5 (B "emn"%string)); EvEndDoc].
+Proof. vm_compute. reflexivity. Qed.
+
+(* Wireless Village CSP 1.1: opaque integer, opaque date-time, extension value token (EXT_T_0) *)
+Definition ex_wv : wdoc := mk_wdoc 3 (PubNum 16) (Some 106) [] []
+  (WItemElt None (WTagTok 5) [] true
+     [WItemElt None (WTagTok 11) [] true [WItemStr (WOpaque [1; 0])];
+      WItemElt None (WTagTok 17) [] true [WItemStr (WOpaque [31; 70; 52; 130; 5; 90])];
+      WItemStr (WExt None (ExtT 0 48))]) [].
+Example C04_ex_wv : denote main_table ex_wv =
+  Some [EvStartDoc 106 2301; EvStartElt (TagTok 0 5 (B "Acceptance"%string)) [];
+        EvStartElt (TagTok 0 11 (B "Code"%string)) []; EvChars (B "256"%string); EvEndElt (TagTok 0 11 (B "Code"%string));
+        EvStartElt (TagTok 0 17 (B "DateTime"%string)) []; EvChars (B "20010826T080805Z"%string); EvEndElt (TagTok 0 17 (B "DateTime"%string));
+        EvChars (B "www.wireless-village.org"%string);
+        EvEndElt (TagTok 0 5 (B "Acceptance"%string)); EvEndDoc].
+Proof. vm_compute. reflexivity. Qed.
+
+(* SyncML 1.1: SWITCH_PAGE to MetInf and back, NextNonce opaque as base64, ENTITY as UTF-8 *)
+Definition ex_syncml : wdoc := mk_wdoc 2 (PubNum 4051) (Some 106) [] []
+  (WItemElt None (WTagTok 45) [] true
+     [WItemElt None (WTagTok 9) [] true
+        [WItemElt None (WTagTok 26) [] true
+           [WItemElt (Some 1) (WTagTok 16) [] true [WItemStr (WOpaque [1; 2; 3])];
+            WItemElt None (WTagTok 19) [] true [WItemStr (WStrI [97])]]];
+      WItemElt (Some 0) (WTagTok 15) [] true [WItemStr (WEntity 233)]]) [].
+Example C04_ex_syncml : denote main_table ex_syncml =
+  Some [EvStartDoc 106 2101; EvStartElt (TagTok 0 45 (B "SyncML"%string)) []; EvStartElt (TagTok 0 9 (B "Chal"%string)) [];
+        EvStartElt (TagTok 0 26 (B "Meta"%string)) [];
+        EvStartElt (TagTok 1 16 (B "NextNonce"%string)) []; EvChars (B "AQID"%string); EvEndElt (TagTok 1 16 (B "NextNonce"%string));
+        EvStartElt (TagTok 1 19 (B "Type"%string)) []; EvChars [97]; EvEndElt (TagTok 1 19 (B "Type"%string));
+        EvEndElt (TagTok 0 26 (B "Meta"%string)); EvEndElt (TagTok 0 9 (B "Chal"%string));
+        EvStartElt (TagTok 0 15 (B "Data"%string)) []; EvChars [195; 169]; EvEndElt (TagTok 0 15 (B "Data"%string));
+        EvEndElt (TagTok 0 45 (B "SyncML"%string)); EvEndDoc].
+Proof. vm_compute. reflexivity. Qed.
+
+(* DRMREL: ds:KeyValue opaque as base64 *)
+Definition ex_drm : wdoc := mk_wdoc 3 (PubNum 14) (Some 106) [] []
+  (WItemElt None (WTagTok 5) [] true [WItemElt None (WTagTok 12) [] true [WItemStr (WOpaque [255; 0; 16])]]) [].
+Example C04_ex_drm : denote main_table ex_drm =
+  Some [EvStartDoc 106 1801; EvStartElt (TagTok 0 5 (B "o-ex:rights"%string)) [];
+        EvStartElt (TagTok 0 12 (B "ds:KeyValue"%string)) []; EvChars (B "/wAQ"%string); EvEndElt (TagTok 0 12 (B "ds:KeyValue"%string));
+        EvEndElt (TagTok 0 5 (B "o-ex:rights"%string)); EvEndDoc].
+Proof. vm_compute. reflexivity. Qed.
+
+(* a language that has no numeric public identifier (WV CSP 1.2): textual identifier in the string table, a LITERAL
+   tag, string-table references (one into the middle of a string, into the unterminated tail of the table) *)
+Definition ex_txt : wdoc :=
+  mk_wdoc 3 (PubIdx 0) (Some 106) (B "-//OMA//DTD WV-CSP 1.2//EN"%string ++ [0] ++ B "x-tag"%string ++ [0] ++ B "hello"%string) []
+    (WItemElt None (WTagLit 27) [] true [WItemStr (WStrT 33); WItemStr (WStrT 35)]) [].
+Example C04_ex_txt : denote main_table ex_txt =
+  Some [EvStartDoc 106 2302; EvStartElt (TagLit (B "x-tag"%string)) []; EvChars (B "hello"%string); EvChars (B "llo"%string);
+        EvEndElt (TagLit (B "x-tag"%string)); EvEndDoc].
+Proof. vm_compute. reflexivity. Qed.
+
+(* OTA settings: no public identifier selects it (numeric 1 = unknown, no text): not well-formed unless the caller
+   forces the language; opaque ATTRIBUTE value as base64 *)
+Definition ex_ota : wdoc := mk_wdoc 1 (PubNum 1) (Some 106) [] []
+  (WItemElt None (WTagTok 5) [] true [WItemElt None (WTagTok 6) [mk_wattr (AStartTok None 6) []] true
+      [WItemElt None (WTagTok 7) [mk_wattr (AStartTok None 16) [WValStr (WStrI [97])]; mk_wattr (AStartTok None 17) [WValStr (WOpaque [1;2;3])]] false []]]) [].
+Example C04_ex_ota : denote main_table ex_ota = None
+  /\ denote_with main_table (find (fun l => l_id l =? 1901) main_table) ex_ota =
+  Some [EvStartDoc 106 1901; EvStartElt (TagTok 0 5 (B "CHARACTERISTIC-LIST"%string)) [];
+        EvStartElt (TagTok 0 6 (B "CHARACTERISTIC"%string)) [(AttrTok 0 6 (B "TYPE"%string), B "ADDRESS"%string)];
+        EvStartElt (TagTok 0 7 (B "PARM"%string)) [(AttrTok 0 16 (B "NAME"%string), [97]); (AttrTok 0 17 (B "VALUE"%string), B "AQID"%string)];
+        EvEndElt (TagTok 0 7 (B "PARM"%string)); EvEndElt (TagTok 0 6 (B "CHARACTERISTIC"%string));
+        EvEndElt (TagTok 0 5 (B "CHARACTERISTIC-LIST"%string)); EvEndDoc].
+Proof. vm_compute. split; reflexivity. Qed.
+
+Example C04_ex_families_parse :
+  forallb (fun d => match denote main_table d with
+                    | Some evs => match parse main_table (S (length (serialize d))) (serialize d) with POk e => true | _ => false end
+                    | None => false end) [ex_si; ex_emn; ex_wv; ex_syncml; ex_drm; ex_txt] = true
+  /\ parse_with main_table 1901 0 (S (length (serialize ex_ota))) (serialize ex_ota)
+     = match denote_with main_table (find (fun l => l_id l =? 1901) main_table) ex_ota with Some e => POk e | None => PFuel end.
+Proof. vm_compute. split; reflexivity. Qed.
+
 (* the premise is satisfiable on concrete values (it is a statement about total functions) *)
 Example C04_ex_typed : decode_wv_content (Some (0, 11)) [1; 0] = POk [50; 53; 54]
   /\ spec_opaque (opaque_kind 2301 (Some (0, 11))) [1; 0] = Some [50; 53; 54]
